@@ -103,7 +103,7 @@ def compare_unpack(run, bench, variants, label, raw, off=0):
             elif got[0] == "ok":
                 what = "unpack yields a different end offset under generated code"
             run.violation(what, {"source": render.family_src(fam, {"g": variants["g"], v: variants[v]}), "variant": v,
-                                 "options": variants[v], "raw": b2j(raw), "offset": off, "input": label,
+                                 "options": variants[v], "raw": b2j(raw), "offset": off, "input": label, "fam": fam,
                                  "generic": [x.to_json() if isinstance(x, model.PV) else x for x in ref],
                                  "generated": [x.to_json() if isinstance(x, model.PV) else x for x in got],
                                  "generated_module": bench.loaded.generated_source(fam["root"], v)}, None)
@@ -146,7 +146,7 @@ def compare_pack(run, bench, variants, pv, desc, illtyped=False):
         if got != ref:
             run.violation("pack differs between generated variant and generic interpretation (generic %s, variant %s)" % (ref[0], got[0]),
                           {"source": render.family_src(fam, {"g": variants["g"], v: variants[v]}), "variant": v, "options": variants[v],
-                           "values": pv.to_json(), "case": desc, "generic": ref, "generated": got,
+                           "values": pv.to_json(), "case": desc, "generic": ref, "generated": got, "fam": fam,
                            "generated_module": bench.loaded.generated_source(fam["root"], v)}, None)
 
 
@@ -200,3 +200,16 @@ def run(run):
             compare_unpack(run, bench, variants, label, t, 0)
         if run.counters["violations"] > 30:
             break
+
+
+def replay(run, rec):
+    w = rec["witness"]
+    fam = common.from_json(w["fam"])
+    variants = {"g": render.codegen_variant((0, 0, 1, 1)), w["variant"]: w["options"]}
+    d = common.scratch_dir("bvf_replay_")
+    bench = harness.Bench(fam, variants, d, instrument=())
+    bench.skeleton = "replay"
+    if "raw" in w:
+        compare_unpack(run, bench, variants, w.get("input", "replay@0"), common.from_json(w["raw"]), w.get("offset", 0))
+    else:
+        compare_pack(run, bench, variants, model.val_from_json(w["values"]), w.get("case", "replay"))
